@@ -28,7 +28,7 @@ Proof. intros [|]; vm_compute; reflexivity. Qed.
 
 (* RFC 7518 B.1 through the dispatch layer and through the reference composition of the spec *)
 Example ch_128_256_encrypt_symmetric :
-  encrypt_symmetric "A128CBC-HS256" (KOct kat_ch_128_256_key) kat_iv kat_aad kat_pt
+  encrypt_symmetric Fixed "A128CBC-HS256" (KOct kat_ch_128_256_key) kat_iv kat_aad kat_pt
   = Ok (firstn (List.length kat_ch_128_256_out - 16) kat_ch_128_256_out, skipn (List.length kat_ch_128_256_out - 16) kat_ch_128_256_out).
 Proof. vm_compute. reflexivity. Qed.
 
@@ -60,7 +60,7 @@ Proof. intros [|]; vm_compute; reflexivity. Qed.
 
 (* RFC 7518 B.2 through the dispatch layer and through the reference composition of the spec *)
 Example ch_192_384_encrypt_symmetric :
-  encrypt_symmetric "A192CBC-HS384" (KOct kat_ch_192_384_key) kat_iv kat_aad kat_pt
+  encrypt_symmetric Fixed "A192CBC-HS384" (KOct kat_ch_192_384_key) kat_iv kat_aad kat_pt
   = Ok (firstn (List.length kat_ch_192_384_out - 24) kat_ch_192_384_out, skipn (List.length kat_ch_192_384_out - 24) kat_ch_192_384_out).
 Proof. vm_compute. reflexivity. Qed.
 
@@ -107,7 +107,7 @@ Proof. intros [|]; vm_compute; reflexivity. Qed.
 
 (* RFC 7518 B.3 through the dispatch layer and through the reference composition of the spec *)
 Example ch_256_512_encrypt_symmetric :
-  encrypt_symmetric "A256CBC-HS512" (KOct kat_ch_256_512_key) kat_iv kat_aad kat_pt
+  encrypt_symmetric Fixed "A256CBC-HS512" (KOct kat_ch_256_512_key) kat_iv kat_aad kat_pt
   = Ok (firstn (List.length kat_ch_256_512_out - 32) kat_ch_256_512_out, skipn (List.length kat_ch_256_512_out - 32) kat_ch_256_512_out).
 Proof. vm_compute. reflexivity. Qed.
 
@@ -124,13 +124,13 @@ Proof. vm_compute. reflexivity. Qed.
 
 (* the three RFC 7518 appendix B cases, as one statement for Properties/C03.v *)
 Definition rfc7518_b_holds : Prop :=
-  encrypt_symmetric "A128CBC-HS256" (KOct kat_ch_128_256_key) kat_iv kat_aad kat_pt
+  encrypt_symmetric Fixed "A128CBC-HS256" (KOct kat_ch_128_256_key) kat_iv kat_aad kat_pt
     = Ok (firstn (List.length kat_ch_128_256_out - 16) kat_ch_128_256_out,
           skipn (List.length kat_ch_128_256_out - 16) kat_ch_128_256_out) /\
-  encrypt_symmetric "A192CBC-HS384" (KOct kat_ch_192_384_key) kat_iv kat_aad kat_pt
+  encrypt_symmetric Fixed "A192CBC-HS384" (KOct kat_ch_192_384_key) kat_iv kat_aad kat_pt
     = Ok (firstn (List.length kat_ch_192_384_out - 24) kat_ch_192_384_out,
           skipn (List.length kat_ch_192_384_out - 24) kat_ch_192_384_out) /\
-  encrypt_symmetric "A256CBC-HS512" (KOct kat_ch_256_512_key) kat_iv kat_aad kat_pt
+  encrypt_symmetric Fixed "A256CBC-HS512" (KOct kat_ch_256_512_key) kat_iv kat_aad kat_pt
     = Ok (firstn (List.length kat_ch_256_512_out - 32) kat_ch_256_512_out,
           skipn (List.length kat_ch_256_512_out - 32) kat_ch_256_512_out).
 
